@@ -29,7 +29,7 @@ package quickbuilder
 //@ prop C11 C16
 //@ may_panic
 //@ ensures node-carries-the-size-the-builder-reported-for-its-link: result != nil ==> int64(builtSize(result.(*data/builder/quick.lnkNode).link)) == result.(*data/builder/quick.lnkNode).size
-//@ at call data/builder.BuildUnixFSDirectoryEntry#1 assert each-entry-is-named-and-sized-as-its-node-says: callee_name == name && callee_size == sz
+//@ at call data/builder.BuildUnixFSDirectoryEntry#1 assert each-entry-is-named-sized-and-linked-as-its-node-says: callee_name == name && callee_size == qnodeSize(e) && callee_hash == qnodeLink(e)
 //@ at call data/builder.BuildUnixFSDirectory#1 assert built-in-the-builders-own-store: callee_ls == b.ls
 //@ ensures names-a-stored-dag: result != nil ==> typeis(result, "*data/builder/quick.lnkNode") && stored(result.(*data/builder/quick.lnkNode).link)
 //@ ensures monotone: forall l Ref :: old(stored(l)) ==> stored(l)
